@@ -299,3 +299,19 @@ package vuego
 
 //@ func splitPathImpl(expr) (r)
 //@   modifies nothing
+
+// ---- layouts (C07) ----
+
+//@ func (l *Loader) Stat(filename) (err)
+//@   modifies nothing
+//@   ensures (err == nil) == fileExists(l.FS, filename)
+
+//@ func (t *template) resolveLayoutPath(layout, currentFile) (r)
+//@   modifies nothing
+//@   ensures C07.relative.first: r ==
+//@     ((hasSuffix(layout, ".vuego") && fileExists(t.vue.loader.FS, pathJoin2(pathDir(currentFile), layout))) ? pathJoin2(pathDir(currentFile), layout) :
+//@      (fileExists(t.vue.loader.FS, pathJoin2(pathDir(currentFile), layout + ".vuego")) ? pathJoin2(pathDir(currentFile), layout + ".vuego") :
+//@       "layouts/" + layout + ".vuego"))
+
+// the deferred closure of interpolate resets the pooled builder before it is returned to the pool
+//@ func (v *Vue) interpolate$1()
